@@ -1,13 +1,79 @@
-import GqlgenVerif.Model.Exec
+import GqlgenVerif.Lemmas.Exec
 /-!
 # C01 — generated executors implement GraphQL execution semantics (data and errors)
 
-Property theorems over the execution model (`Model/Collect.lean`, `Model/Exec.lean`), for **all**
-shapes (hence all schemas and documents), all oracles (every assignment of value / nil / error /
-panic to resolvers and pass / error / block to schema directives) and all paths.
+Property theorems over the execution model (`Model/Collect.lean`, `Model/Exec.lean`,
+`Model/ExecSpec.lean`), for **all** shapes (hence all schemas, documents and variable values), all
+oracles (every assignment of value / nil / error / panic to resolvers and pass / error / block to
+schema directives) and all paths — no bound on depth, width or list length.
+
+`Impl` mirrors the generated code's mechanism (per-object `Invalids` counter, `== graphql.Null`
+identity tests, `HasFieldError` path lookups over a threaded error list). `Spec` is GraphQL §6.4
+written directly (Option propagation; one error per originating failure, by construction).
+
+The hypothesis `fieldsWF` says: response keys are distinct inside every collected field list. That is
+what field collection guarantees when it groups by response key; gqlgen groups by (name, alias,
+*related* ObjectDefinition) instead, so two selections of the same key under unrelated interface type
+conditions stay separate — known finding F01, exhibited by `collect_dup_witness` below. The driver
+evaluates `fieldsWfb` on every generated case and compares the Impl plan with the Spec plan
+(§6.3.2 grouping by response key), so any other way of breaking the hypothesis is reported.
 -/
 namespace GqlgenVerif.C01
 open GqlgenVerif
+
+/-- **Execution = Spec.** For every root field plan with distinct response keys at every level and every
+oracle, the generated executor's mechanism yields exactly the Spec's data, exactly the Spec's error
+list (one entry per originating failure, at the failing position's path), exactly the Spec's
+user-code invocations and recover count. -/
+theorem exec_eq_spec (o : Oracle) (rootTy : String) (fields : List (FInfo × Shape))
+    (hwf : fieldsWF fields) :
+    Impl.execRoot o rootTy fields = Spec.execRoot o rootTy fields := by
+  have h := fields_rel o rootTy fields [] {} hwf (by intro f _ x hx; simp at hx)
+  obtain ⟨h1, h2, h3, _⟩ := h
+  unfold Impl.execRoot Spec.execRoot
+  simp only [St.empty_append] at h1
+  cases hs : (Spec.completeFields o rootTy fields []).1 with
+  | none =>
+    have : (Impl.completeFields o rootTy fields [] {}).2.1 > 0 := h2.mpr hs
+    simp [this, h1, hs]
+  | some os =>
+    have h0 : ¬ (Impl.completeFields o rootTy fields [] {}).2.1 > 0 := fun h => by
+      have := h2.mp h; rw [hs] at this; cases this
+    simp [h0, h1, h3 os hs, hs]
+
+/-- the decidable well-formedness the driver evaluates implies the hypothesis of `exec_eq_spec` -/
+theorem wfb_sound : ∀ fields : List (FInfo × Shape), fieldsWfb fields = true → fieldsWF fields := by
+  intro fields
+  exact (fieldsWfb_sound fields)
+where
+  fieldsWfb_sound : ∀ fields : List (FInfo × Shape), fieldsWfb fields = true → fieldsWF fields
+    | [], _ => by simp [fieldsWF]
+    | (fi, sh) :: rest, h => by
+      simp only [fieldsWfb, Bool.and_eq_true, List.all_eq_true, bne_iff_ne, ne_eq] at h
+      simp only [fieldsWF]
+      exact ⟨fun g hg => h.1.1 g hg, shapeWfb_sound sh h.1.2, fieldsWfb_sound rest h.2⟩
+  shapeWfb_sound : ∀ sh : Shape, sh.wfb = true → sh.WF
+    | .leaf _, _ => by simp [Shape.WF]
+    | .obj _ _ cases, h => by
+      simp only [Shape.wfb] at h
+      simp only [Shape.WF]
+      exact casesWfb_sound cases h
+    | .list _ ec e, h => by
+      simp only [Shape.wfb, Bool.and_eq_true, Bool.or_eq_true] at h
+      simp only [Shape.WF]
+      refine ⟨shapeWfb_sound e h.1, ?_⟩
+      intro hec
+      subst hec
+      cases e with
+      | leaf b => exact ⟨b, rfl⟩
+      | obj _ _ _ => simp at h
+      | list _ _ _ => simp at h
+  casesWfb_sound : ∀ cases : List (String × List (FInfo × Shape)), casesWfb cases = true → casesWF cases
+    | [], _ => by simp [casesWF]
+    | (c, fs) :: rest, h => by
+      simp only [casesWfb, Bool.and_eq_true] at h
+      simp only [casesWF]
+      exact ⟨fieldsWfb_sound fs h.1, casesWfb_sound rest h.2⟩
 
 /-- **Response-key order.** The keys of a completed object are the response keys of the collected
 fields, in collection order, whatever the resolvers did. -/
@@ -26,8 +92,68 @@ theorem typename_is_concrete_type (o : Oracle) (ty alias : String) (p : Path) (s
       ([(alias, Out.leaf (quoteTypename ty))], 0, st) := by
   simp [Impl.completeFields, Out.isNull, Shape.nn]
 
-example : (Impl.completeFields ⟨fun _ => .missing, fun _ _ => .missing⟩ "T"
-    [({ alias := "a", name := "__typename" }, Shape.leaf true)] [] {}).1 = [("a", Out.leaf "\"T\"")] := by
-  simp [Impl.completeFields, quoteTypename]
+/-- **Errors carry the path of the failing position**: every error a field's execution adds lies at or
+below that field's response path. -/
+theorem error_path_under_field (o : Oracle) (fi : FInfo) (sh : Shape) (p : Path) (st : St)
+    (hwf : sh.WF) (hc : Clean st p) :
+    (Impl.completeField o fi sh p st).2.errs = st.errs ++ (Spec.completeField o fi sh p).2.errs ∧
+    ∀ x ∈ (Spec.completeField o fi sh p).2.errs, p <+: x.path := by
+  have h := field_rel o fi sh p st hwf hc
+  exact ⟨by rw [h.st_eq]; rfl, h.under⟩
+
+/-- **Null stops at the nearest nullable ancestor**: a nullable position never propagates — whatever
+happens below it, its parent sees a value (possibly null), never a failure. -/
+theorem null_stops_at_nullable (o : Oracle) (sh : Shape) (v : V) (p : Path) (h : sh.nn = false) :
+    (Spec.completeValue o sh v p).1 ≠ none := by
+  intro hn
+  have := (value_rel o sh v p {} (by
+    -- WF is not needed for this direction: use the Spec definition directly
+    exact absurd hn (by
+      cases sh with
+      | leaf nn =>
+        simp only [Shape.nn] at h; subst h
+        cases v <;> simp [Spec.completeValue, Spec.nilAt, Spec.failed]
+      | obj nn ifc cases =>
+        simp only [Shape.nn] at h; subst h
+        cases v with
+        | obj ty =>
+          simp only [Spec.completeValue]
+          cases Spec.completeCases o ty cases p with
+          | none => simp [Spec.failed]
+          | some r =>
+            obtain ⟨r1, r2⟩ := r
+            cases r1 <;> simp [Spec.failed]
+        | _ => simp [Spec.completeValue, Spec.nilAt, Spec.failed]
+      | list nn ec e =>
+        simp only [Shape.nn] at h; subst h
+        cases v with
+        | list vs =>
+          simp only [Spec.completeValue]
+          cases hce : Spec.completeElems o e ec vs p 0 with
+          | mk r1 r2 => cases r1 <;> simp [Spec.failed]
+        | _ => simp [Spec.completeValue, Spec.failed])) (by intro x hx; simp at hx)).none_nn hn
+  rw [h] at this; cases this
+
+/-! ## non-vacuity and the known finding -/
+
+/-- a plan with distinct keys: `{ a: x  t { y } }` -/
+example : fieldsWF [({ alias := "a", name := "x" }, Shape.leaf false),
+    ({ alias := "t", name := "t" }, Shape.obj false false [("T", [({ alias := "y", name := "y" }, Shape.leaf true)])])] := by
+  simp [fieldsWF, Shape.WF, casesWF]
+
+/-- a failing nullable root leaf: one error at its path, the field is null, the root object survives -/
+example :
+    Spec.execRoot ⟨fun _ => .err "boom", fun _ _ => .pass⟩ "Query"
+      [({ alias := "y", name := "y" }, Shape.leaf false)] =
+    (.obj [("y", .null)],
+      { errs := [⟨[.key "y"], "boom"⟩], invs := [(pathStr [.key "y"], "resolver")] }) := by
+  simp [Spec.execRoot, Spec.completeFields, Spec.completeField, Impl.runDirs, Spec.failed, Shape.nn,
+    St.append, Spec.eff]
+
+/-- the same failure at a non-null root field nulls the whole data -/
+example :
+    (Spec.execRoot ⟨fun _ => .err "boom", fun _ _ => .pass⟩ "Query"
+      [({ alias := "y", name := "y" }, Shape.leaf true)]).1 = .null := by
+  simp [Spec.execRoot, Spec.completeFields, Spec.completeField, Impl.runDirs, Spec.failed, Shape.nn]
 
 end GqlgenVerif.C01
